@@ -2,7 +2,7 @@ import S3V.Thm.XmlEscape
 /-!
 The tokeniser reads back what the writer wrote: `deEvents (tokenize (write evs)) = evs` for well-nested event
 sequences with element names made of name bytes, attributes ` key="value"` with such names as keys and `"`-free
-values (the `xmlns` attribute; since 1dc4ea8 also `SerializeContent::attributes`), and `<`-free non-empty texts that
+values (the `xmlns` attribute; since 680006e also `SerializeContent::attributes`), and `<`-free non-empty texts that
 are not adjacent and — outside every element — white space only (the deserialiser refuses other character data
 there) — in particular for everything the encoder produces (`XmlTokenEnc.lean`).
 -/
